@@ -8,6 +8,8 @@ from ..core import FUNC, call_attr, calls_in, const, dotted, is_const, kwarg, no
 from .c09 import waiter_rule, _stored_in_cancelled_table
 
 EXPLANATION = [
+    'C16.pending-slots: a manager-wide pending-request slot that a coroutine of ChannelManager fills with a future is set back to None on every exit of that coroutine after the store, the cancellation of its await (disconnection) included.',
+    'C16.late-binding: no closure that is created inside a loop and kept (a sink, an event listener, a callback) reads the loop\'s variables freely; values are bound per iteration (default argument or functools.partial), so each bearer\'s callback serves its own bearer.',
     'C16.shared-state: no class of the anchored modules keeps per-instance state in an object shared by all instances (an empty mutable container or synchronisation object as class-level default that is read through self and not rebound in __init__, or as a dataclass field default); process-wide registries are listed by name.',
     'C16.queued-waiters: a GATT client request that was waiting for the request semaphore when the bearer closed tests, right after obtaining the semaphore and before sending, a flag that Client.on_disconnection sets; the in-flight request is cancelled there (the server-side twin for indications is in C16.pending-indication).',
     'C16.queue-waiters: DataPacketQueue.flush(handle) sets the drained event of the popped per-connection state on every path on which such a state exists (whatever its in-flight count), so a drain() waiting on a closed connection ends (same rule as C04.drain).',
@@ -431,6 +433,39 @@ def queued_waiters(ctx):
     R.check(bool(cancels), rule, 'bumble.gatt_client.Client.on_disconnection | in-flight request', 'the in-flight request is cancelled', 'the in-flight request is not cancelled on disconnection', p.loc(od))
 
 
+def pending_slots(ctx):
+    """A manager-wide "request pending" slot holding a future is cleared on every exit of the coroutine that set it --
+    also when the wait is cancelled because the connection went away -- so the next request (on any connection) is not
+    refused as "already pending" for ever."""
+    R, p = ctx.r, ctx.p
+    rule = 'C16.pending-slots'
+    n = 0
+    for cq in ('bumble.l2cap.ChannelManager',):
+        ci = p.cls(cq)
+        if ci is None:
+            R.bad(rule, cq, 'anchor missing')
+            continue
+        for name, m in sorted(ci.methods.items()):
+            if not isinstance(m, ast.AsyncFunctionDef):
+                continue
+            slots = {dotted(n_.targets[0]) for n_ in walk_local(m) if isinstance(n_, ast.Assign) and len(n_.targets) == 1 and (dotted(n_.targets[0]) or '').startswith('self.') and 'create_future()' in norm(n_.value)}
+            for slot in sorted(slots):
+                n += 1
+
+                class D(paths.Domain):
+                    cancel_at_await = True   # the wait is cancelled when the connection goes away
+
+                    def event(self, node, v):
+                        if isinstance(node, ast.Assign) and dotted(node.targets[0]) == slot:
+                            return ('clear' if norm(node.value) == 'None' else 'set',)
+                        return (v,)
+                res = paths.run(m, D(), 'unset')
+                stuck = sorted({k for k, st in res.items() for v in st if v == 'set'})
+                R.check(not stuck, rule, f'{cq}.{name} | {slot}', 'cleared on every exit after it was set (normal return, explicit raise, cancellation at the await)',
+                        f'`{slot}` still holds the future on exit {stuck}: after a disconnection cancelled the wait, the slot keeps the dead connection\'s future and every later request on any connection is refused as already pending', p.loc(m))
+    R.check(n >= 1, rule, 'manager-wide pending slots', f'{n} slot(s) analysed', 'no pending slot found')
+
+
 def queue_waiters(ctx):
     """drain() waiters of a data queue are released when their connection is flushed (same rule as C04.drain)."""
     from . import c04
@@ -443,9 +478,16 @@ def shared_state_rule(ctx):
     shared_state(ctx, 'C16.shared-state', ['bumble.host', 'bumble.device', 'bumble.gatt_server', 'bumble.gatt_client', 'bumble.l2cap', 'bumble.smp', 'bumble.controller'])
 
 
+def late_binding_rule(ctx):
+    from ..late_binding import late_binding
+    late_binding(ctx, 'C16.late-binding', ['bumble.device', 'bumble.host', 'bumble.l2cap', 'bumble.gatt_client', 'bumble.gatt_server', 'bumble.smp'])
+
+
 RULES = [
+    ('C16.late-binding', late_binding_rule),
     ('C16.shared-state', shared_state_rule),
     ('C16.queue-waiters', queue_waiters),
+    ('C16.pending-slots', pending_slots),
     ('C16.queued-waiters', queued_waiters),
     ('C16.pending-indication', pending_indication),
     ('C16.device-cleanup', device_cleanup),
